@@ -7,13 +7,13 @@ CFGS = {
               # flush, then every clean page leaves the cache, then more statements (a page changed but not marked dirty shows here)
               ("c01-e", dict(MaxStmts=5, MaxRows=2, MaxFlush=1, MaxEvict=1, Tables='{"t1"}', Vals="{1}"), 15000),
               ("c01-b", dict(MaxStmts=5, MaxRows=3, MaxFlush=0, Tables='{"t1"}', Vals="{1}"), None),
-              # rows with a NULL column (value 9) and rows at the 400-byte limit (value 8) between ordinary ones
-              ("c01-n", dict(MaxStmts=5, MaxRows=1, MaxFlush=1, Tables='{"t1"}', Vals="{1, 8, 9}", Wheres="{0, 1}"), 12000)],
+              # rows with a NULL column (value 9), rows at the 400-byte limit (value 8) and rows with an empty string (value 7)
+              ("c01-n", dict(MaxStmts=5, MaxRows=1, MaxFlush=1, Tables='{"t1"}', Vals="{7, 8, 9}", Wheres="{0, 7}"), 12000)],
     "thorough": [("c01-a", dict(EmitMod=4, MaxStmts=5, MaxRows=2, MaxFlush=1), 60000),
                  ("c01-e", dict(EmitMod=16, MaxStmts=5, MaxRows=3, MaxFlush=1, MaxEvict=1, Tables='{"t1"}', Vals="{1, 2}"), 60000),
                  ("c01-b", dict(MaxStmts=7, MaxRows=3, MaxFlush=1, Tables='{"t1"}', Vals="{1}"), 40000),
                  ("c01-c", dict(EmitMod=24, MaxStmts=6, MaxRows=3, MaxFlush=0, Tables='{"t1"}', Vals="{1, 2}"), 40000),
-                 ("c01-n", dict(EmitMod=20, MaxStmts=6, MaxRows=2, MaxFlush=1, Tables='{"t1"}', Vals="{1, 8, 9}", Wheres="{0, 1, 8}"), 60000)],
+                 ("c01-n", dict(EmitMod=20, MaxStmts=6, MaxRows=2, MaxFlush=1, Tables='{"t1"}', Vals="{7, 8, 9}", Wheres="{0, 7, 8}"), 60000)],
 }
 
 
